@@ -132,7 +132,8 @@ class Gen:
         if k < 57 and not ctx["in_catch_fin"] and ctx["fin_level"] == 0:
             # a function that calls ITSELF from inside its own try block, three activations deep; each activation then meets a
             # fault point inside its try block and has its own catch block
-            return ["rectry", self.id(), self.id(), self.site()]
+            # (sometimes 45 deep, with six locals per activation: the inner try blocks are entered more than 256 slots up the stack)
+            return ["rectry", self.id(), self.id(), self.site(), r.choice([2, 2, 2, 44])]
         if k < 60:
             return ["evg", self.id()]
         if k < 62 and ctx.get("clocals"):
@@ -465,9 +466,11 @@ def render_all(ir):
             emit("!nil;", ind)      # three bytes: changes the parity of the padding
         elif k == "rectry":
             emit("{", ind)
-            emit("fn rt%d(n) { try { print((\"ev\", %d, n)); if n > 0 { rt%d(n - 1); } fail(print((\"chk\", \"%s\"))); print((\"ev\", %d, n, \"ok\")); } catch erec { print((\"ev\", %d, n, type(erec))); } return n; }" % (
+            emit("fn rt%d(n) { var q0 = n; var q1 = n + 1; var q2 = [n]; var q3 = q1; var q4 = q0; var q5 = 5; "
+                 "try { print((\"ev\", %d, n)); if n > 0 { rt%d(n - 1); } fail(print((\"chk\", \"%s\"))); print((\"ev\", %d, n, \"ok\", q0, q2[0])); } "
+                 "catch erec { print((\"ev\", %d, n, type(erec), q0, q1 + q3 + q4 + q5)); } return n; }" % (
                 st[1], st[1], st[1], st[3], st[2], st[2]), ind + 1)
-            emit("rt%d(2);" % st[1], ind + 1)
+            emit("rt%d(%d);" % (st[1], st[4] if len(st) > 4 else 2), ind + 1)
             emit("}", ind)
         elif k == "lam":
             # a lambda expression compiled in the middle of whatever block this is (a nested function for the compiler)
@@ -803,14 +806,17 @@ def model(ir, tape, faults):
             pass
         elif k == "rectry":
             probes.inc("recursion_through_a_try_block")
-            for n_ in (2, 1, 0):
+            top = st[4] if len(st) > 4 else 2
+            if top > 2:
+                probes.inc("try_blocks_entered_more_than_256_slots_up_the_stack")
+            for n_ in range(top, -1, -1):
                 ev.append([num(st[1]), num(n_)])
-            for n_ in (0, 1, 2):
+            for n_ in range(0, top + 1):
                 try:
                     stmt(["chk", st[3]], env)
-                    ev.append([num(st[2]), num(n_), s("ok")])
+                    ev.append([num(st[2]), num(n_), s("ok"), num(n_), num(n_)])
                 except Thrown as t_:
-                    ev.append([num(st[2]), num(n_), t_.enc_type])
+                    ev.append([num(st[2]), num(n_), t_.enc_type, num(n_), num(3 * n_ + 7)])
         elif k == "lam":
             ev.append([num(st[1]), num(st[1] + 1)])
         elif k == "setg":
